@@ -1222,7 +1222,7 @@ parser! {
         sinks,
       }
      }
-    rule prog_conf_elements() -> Vec<ProgramConfigurationKind> = commasep_oneplus(<prog_conf_element()>)
+    rule prog_conf_elements() -> Vec<ProgramConfigurationKind> = elements:prog_conf_element() ++ (_ comma() _) { elements }
     rule prog_conf_element() -> ProgramConfigurationKind = fb:fb_task() { ProgramConfigurationKind::FbTask(fb) } / prog_cnxn()
     rule fb_task() -> FunctionBlockTask = fb_name:fb_name() _ tok(TokenType::With) _ task_name:task_name() {
       FunctionBlockTask { fb_name, task_name }
